@@ -515,3 +515,19 @@ def simple_grammar(rules, ignore=(), name=None, start=None):
     for n, body in rules.items():
         stmts.append(('rule', n, None, body))
     return dict(name=name, extends=None, stmts=stmts)
+
+
+def bare_py_in_ctor(G):
+    """Constructor forms (Expect(...), Skip(...), Sep(...), ...) read bare inline
+    Python operands as option values (evaluated when the grammar is built), so a
+    grammar using one as a parsing operand is outside the language."""
+    for top in grammar_exprs(G):
+        for e in walk(top):
+            k = e[0]
+            if k in ('expect', 'expectnot', 'skip', 'longest'):
+                if any(c[0] in ('py', 'num') for c in children(e)):
+                    return True
+            elif k == 'sep' and _sep_op(e) is None:
+                if e[1][0] in ('py', 'num') or e[2][0] in ('py', 'num'):
+                    return True
+    return False
